@@ -96,6 +96,9 @@ func (g *gen) genCols() []Col {
 	if g.pf.fat && n < 2 {
 		n = 2
 	}
+	if !g.pf.fat && g.r.Chance(0.04) {
+		n = g.r.Range(6, 24) // wide tables: many catalog rows, long tuples of small values
+	}
 	cols := []Col{{Name: "k", Type: TInt}}
 	for i := 1; i < n; i++ {
 		ty := g.r.Intn(4)
@@ -103,6 +106,13 @@ func (g *gen) genCols() []Col {
 			ty = TVarchar
 		}
 		c := Col{Name: fmt.Sprintf("c%d", i), Type: ty}
+		if g.r.Chance(0.05) {
+			// names a catalog table uses for its own columns, mixed case
+			c.Name = []string{"table_name", "field_name", "file_offset", "field_type", "field_length", "Col", "K"}[g.r.Intn(7)] + fmt.Sprint(i)
+			if g.r.Chance(0.4) && i <= 5 {
+				c.Name = []string{"", "table_name", "field_name", "file_offset", "field_type", "field_length"}[i]
+			}
+		}
 		if ty == TVarchar {
 			c.Len = int64(g.r.Range(1, 500))
 		}
@@ -346,6 +356,10 @@ func (g *gen) pickTable() (*MDB, *MTable) {
 func (g *gen) stmtCreate() Stmt {
 	g.ntab++
 	st := Stmt{Kind: KCreate, Table: g.newName("t", g.ntab), Cols: g.genCols(), ViaText: g.r.Chance(0.5)}
+	if g.r.Chance(0.06) {
+		// names that resemble the catalog's own, upper case, a column's name
+		st.Table = g.newName([]string{"T", "sys_pages", "sys_schema", "table_name", "tbl", "k"}[g.r.Intn(6)], g.ntab)
+	}
 	if len(st.Cols) > 1 && g.r.Chance(0.04) {
 		// a column name that makes its catalog row exactly as long as the limit allows (or a little shorter)
 		i := 1 + g.r.Intn(len(st.Cols)-1)
